@@ -41,19 +41,27 @@ fn g41(r: &mut Rng, var: u8) -> Vec<u8> {
 /// behind them: such a request is refused as a whole (PARAMETER_ERROR, nothing actuated) and, for
 /// DIRECT_OPERATE_NR, not answered at all (S71)
 fn control_objects(r: &mut Rng, max_items: usize) -> Vec<u8> {
+    control_objects_end(r, max_items).0
+}
+
+/// … and the offset one past the last control object (a perturbation of the objects stays inside them)
+fn control_objects_end(r: &mut Rng, max_items: usize) -> (Vec<u8>, usize) {
     let o = control_headers(r, max_items);
     if !r.chance(1, 6) {
-        return o;
+        let n = o.len();
+        return (o, n);
     }
     let extra: &[u8] = *r.pick(&[&[0x3cu8, 0x02, 0x06][..], &[0x3c, 0x01, 0x06], &[0x01, 0x00, 0x06], &[0x1e, 0x00, 0x06], &[0x02, 0x00, 0x06]]);
     if r.chance(1, 2) {
         let mut out = extra.to_vec();
         out.extend(o);
-        out
+        let n = out.len();
+        (out, n)
     } else {
         let mut out = o;
+        let n = out.len();
         out.extend_from_slice(extra);
-        out
+        (out, n)
     }
 }
 
@@ -237,7 +245,7 @@ struct G<'a> {
     seq: u8,
     last: Option<(u16, u16, Vec<u8>)>,
     last_note: Option<String>,
-    last_select: Option<(u8, Vec<u8>)>,
+    last_select: Option<(u8, Vec<u8>, usize)>,
     cfg_ctimeout: u64,
     cfg_stimeout: u64,
     cfg_rdelay: u64,
@@ -317,21 +325,20 @@ impl<'a> G<'a> {
             10..=13 => {
                 // SELECT (remembered so that a matching OPERATE can follow)
                 f.push(3);
-                let o = control_objects(&mut self.r, max_items);
+                let (o, end) = control_objects_end(&mut self.r, max_items);
                 f.extend(&o);
-                self.last_select = Some((seq, o));
+                self.last_select = Some((seq, o, end));
                 note = Some("@wf".into());
             }
             14..=17 => {
                 // OPERATE: matching the last SELECT, or perturbed
                 f.push(4);
                 match self.last_select.clone() {
-                    Some((sseq, o)) if self.r.chance(5, 6) => {
+                    Some((sseq, o, end)) if self.r.chance(5, 6) => {
                         let mut o = o;
                         match self.r.below(8) {
                             0 => {
-                                let n = o.len();
-                                o[n - 2] ^= 0x01; // different objects
+                                o[end - 2] ^= 0x01; // different objects
                             }
                             1 => f[0] = ctrl(sseq),            // same seq as the select
                             2 => f[0] = ctrl(sseq.wrapping_add(2)), // skipped seq
@@ -472,7 +479,7 @@ impl<'a> G<'a> {
         self.line("@wf");
         self.last_note = Some("@wf".into());
         self.rx(1, OUTSTATION, sel.clone());
-        self.last_select = Some((seq, o.clone()));
+        self.last_select = Some((seq, o.clone(), o.len()));
         // total time between the select and the operate: below, at and above the timeout
         let total = match self.r.below(6) {
             0 => st.saturating_sub(1).max(2),
